@@ -49,6 +49,9 @@ pub struct WireCase {
     /// Some(c): at most c bytes in flight, a peer task drains them - writes wait in the transport
     #[serde(default)]
     pub capacity: Option<usize>,
+    /// the session writes into a layer that holds everything back until it is flushed
+    #[serde(default)]
+    pub hold_until_flush: bool,
 }
 
 pub struct WireFam;
@@ -102,6 +105,13 @@ pub fn drive_on(scheme_text: &str, ops: &[Op], draw_seed: u64, write_sizes: &[us
 /// As `drive_on`; with `capacity` the transport holds at most that many bytes in flight and a peer
 /// task drains it, so every larger write waits in the transport and other tasks of the session run.
 pub fn drive_full(scheme_text: &str, ops: &[Op], draw_seed: u64, write_sizes: &[usize], capacity: Option<usize>, out: &mut Outcome) -> Result<WireRun, Fail> {
+    drive_held(scheme_text, ops, draw_seed, write_sizes, capacity, false, out)
+}
+
+/// As `drive_full`; with `hold` the session writes into a layer that passes nothing on until it is
+/// flushed (a `BufWriter`, TLS in front of a socket that would block): a packet that is written but
+/// not flushed is not on the wire.
+pub fn drive_held(scheme_text: &str, ops: &[Op], draw_seed: u64, write_sizes: &[usize], capacity: Option<usize>, hold: bool, out: &mut Outcome) -> Result<WireRun, Fail> {
     let write_sizes = write_sizes.to_vec();
     let scheme_text = scheme_text.to_string();
     let ops = ops.to_vec();
@@ -119,7 +129,11 @@ pub fn drive_full(scheme_text: &str, ops: &[Op], draw_seed: u64, write_sizes: &[
         }
         let pad = padding(&scheme_text);
         let md5 = format!("{:x}", md5::compute(scheme_text.as_bytes()));
-        let sess = client_session(&mut l, pad, None);
+        let sess = if hold {
+            std::sync::Arc::new(anytls_rs::session::Session::new_client(l.c_r.take().unwrap(), crate::lab_mem::pipe::HoldUntilFlush::new(l.c_w.take().unwrap()), pad, None))
+        } else {
+            client_session(&mut l, pad, None)
+        };
         let h = l.c2s.clone();
         let mut peer_w = l.s_w.take().unwrap();
         let mut expected: Vec<RFrame> = Vec::new();
@@ -339,14 +353,15 @@ impl Family for WireFam {
             1 => proptest::collection::vec(prop_oneof![Just(7usize), Just(8), Just(256), 64usize..5000], 1..5),
         ];
         let cap = proptest::option::weighted(0.3, prop_oneof![Just(256usize), Just(1024), Just(4096)]);
-        (scheme(size_any(), 8), ops_strategy(12), any::<u64>(), short, cap)
-            .prop_map(|(scheme, ops, draw_seed, write_sizes, capacity)| WireCase { scheme, ops, draw_seed, write_sizes, capacity })
+        (scheme(size_any(), 8), ops_strategy(12), any::<u64>(), short, cap, proptest::bool::weighted(0.25))
+            .prop_map(|(scheme, ops, draw_seed, write_sizes, capacity, hold_until_flush)| WireCase { scheme, ops, draw_seed, write_sizes, capacity, hold_until_flush })
             .boxed()
     }
     fn run(&self, case: &WireCase, _cx: &CaseCtx) -> CaseResult {
         let mut out = Outcome::new();
         let text = case.scheme.text();
-        let run = drive_full(&text, &case.ops, case.draw_seed, &case.write_sizes, case.capacity, &mut out)?;
+        let run = drive_held(&text, &case.ops, case.draw_seed, &case.write_sizes, case.capacity, case.hold_until_flush, &mut out)?;
+        out.class_if(case.hold_until_flush, "writes-held-until-flushed");
         out.class_if(case.capacity.is_some() && case.ops.iter().any(|o| matches!(o, Op::DataDuringPeerHeart(..))), "second-writer-during-a-back-pressured-write");
         out.class_if(!case.write_sizes.is_empty(), "transport-takes-short-writes");
         // classes that need the scheme
